@@ -84,6 +84,7 @@ pub trait Api {
     fn offset(&self, f: RawFile, s: Surf) -> Result<u32, E>;
     fn eof(&self, f: RawFile, s: Surf) -> Result<bool, E>;
     fn has_open_handles(&self) -> bool;
+    fn set_next_handle_id(&self, next: u32);
     fn label(&self, v: RawVolume) -> Result<Option<Vec<u8>>, E>;
     fn file_state(&self, f: RawFile) -> Option<FileState>;
 }
@@ -377,6 +378,9 @@ impl<const D: usize, const F: usize, const V: usize> Api for VolumeManager<SimDi
     }
     fn has_open_handles(&self) -> bool {
         VolumeManager::has_open_handles(self)
+    }
+    fn set_next_handle_id(&self, next: u32) {
+        self.verif_set_next_handle_id(next)
     }
     fn label(&self, v: RawVolume) -> Result<Option<Vec<u8>>, E> {
         self.get_root_volume_label(v).map(|o| o.map(|n| n.name().to_vec()))
